@@ -20,7 +20,8 @@ Tiny identifier pools: names that are also string prefixes (f, rb, u, R, Br) on 
 """
 
 NAMES = ["a", "b", "x", "y", "foo", "bar_1", "_p", "self", "f", "rb", "u", "R", "Br", "bf", "cls", "i",
-         "\u00e9t\u00e9", "\u540d\u524d", "x\u0663", "\u03b1_1", "If", "or_", "elif_", "data", "n0"]
+         "\u00e9t\u00e9", "\u540d\u524d", "x\u0663", "\u03b1_1", "If", "or_", "elif_", "data", "n0",
+         "match", "type", "case"]          # soft keywords are ordinary identifiers outside match/type statements
 XID_NAMES = ["e\u0301x", "a\u203fb", "a\u00b7b", "na\u0308ive", "x\u0300\u0301"]
 ATTRS = ["a", "b", "x", "foo", "bar_1", "rb", "f", "u", "items", "\u00e9t\u00e9", "count", "_p"]
 NUMBERS = ["0", "1", "42", "1_000", "0x1F", "0b101", "0o17", "1.5", "1e5", "2.5j", "10", "0.5", "3.0"]
@@ -593,6 +594,70 @@ class Gen:
         if self.p(0.03):
             s = self.ch(["\n", "\x0c", "\n\n", "# -*- coding: utf-8 -*-\n"]) + s
         return s
+
+
+def fstring_call_chain(rng):
+    """Small texts: attribute chains through calls/subscripts whose arguments are one-line f-strings (and, for comparison,
+    plain strings) with bracket characters in their literal text — balanced or not, opening or closing, alone or paired
+    with a second literal that restores the balance: obj.method(f'({x}').attr"""
+    ch = lambda seq: seq[rng.randrange(len(seq))]
+    names = ["obj", "a", "self", "foo", "rb", "f", "x1", "\u00e9t\u00e9"]
+    attrs = ["attr", "b", "items", "rb", "f", "count", "x_1"]
+
+    def lit(kind):
+        pre = ch(["f", "F", "rf", "fr", "Rf", "fR", "FR", "f", "f"]) if kind == "f" else ch(["", "r", "b", "u", "R"])
+        q = ch(["'", "'", '"'])
+        br = ch(["(", "[", "{{", ")", "]", "}}", "((", "([", "(", "(", ")("])
+        if kind != "f":
+            br = br.replace("{{", "{").replace("}}", "}")
+        fld = ch(["{x}", "{a.b}", "{x!r}", "{n:>{w}}", "{x} {y}"]) if kind == "f" else ch(["x", "a.b", "%s", ""])
+        body = ch([br + fld, fld + br, br + fld + ch([" ", ":", "-"]) + fld, ch(["id=", "p "]) + br + fld])
+        return pre + q + body + q, br
+
+    def args():
+        out, brs = [], []
+        n = ch([1, 1, 2, 3])
+        pos = rng.randrange(n)
+        for i in range(n):
+            if i == pos:
+                t, br = lit("f")
+                brs.append(br)
+            else:
+                t = ch([ch(names), "1", ch(names) + "." + ch(attrs), lit("s")[0]])
+            out.append(t)
+        if rng.random() < 0.35:              # a second f-literal closing what the first one opened
+            closing = {"(": ")", "[": "]", "{{": "}}", "((": "))", "([": "])"}.get(brs[0])
+            if closing:
+                out.append(ch(["f", "F", "rf"]) + "'" + ch(["{y}", "{x.a}"]) + closing + "'")
+        if rng.random() < 0.2:
+            out.append("k=" + ch(names))
+        return ch([", ", ","]).join(out)
+
+    def chain():
+        c = ch(names)
+        for _ in range(rng.randint(0, 2)):
+            c += "." + ch(attrs)
+        c += ch([".", "."]) + ch(["method", "m", "get", "format"]) if rng.random() < 0.8 else ""
+        c += "(" + args() + ")"
+        for _ in range(rng.randint(1, 3)):
+            t = rng.random()
+            c += "." + ch(attrs) if t < 0.7 else ("[0]" if t < 0.85 else "()")
+        if not c.rstrip(")]").endswith(tuple(attrs)) or c[-1] in ")]":
+            c += "." + ch(attrs)
+        return c
+
+    lines = []
+    for _ in range(rng.randint(1, 3)):
+        k = rng.random()
+        if k < 0.4:
+            lines.append(ch(names) + " = " + chain())
+        elif k < 0.7:
+            lines.append(chain())
+        elif k < 0.85:
+            lines.append("print(" + chain() + ", " + ch(names) + ")")
+        else:
+            lines.append("if " + chain() + ": pass")
+    return "\n".join(lines) + ch(["\n", "\n", "", "\ny = 1\n"])
 
 
 def mutate(rng, s):
